@@ -48,7 +48,9 @@ def run(ctx, build):
             key = '%dx%d' % (len(lay.pos_sizes), len(lay.spec_sizes))
             hist['dims'][key] = hist['dims'].get(key, 0) + 1
             with h5py.File(h5path, 'w') as f:
-                main = gen.write_layout(f, lay)
+                chunks = (min(lay.N, 4), min(lay.M, 5)) if li % 3 == 1 and lay.N * lay.M > 1 else None
+                hist['misaligned_chunks'] = hist.get('misaligned_chunks', 0) + int(chunks is not None)
+                main = gen.write_layout(f, lay, chunks=chunks)
                 # the wrapper's view (file order / sorted by rate, also reached by toggling) must not influence the table
                 view = ('file_order', 'sorted', 'toggled_to_sorted', 'toggled_twice')[li % 4]
                 with common.quiet():
